@@ -110,10 +110,10 @@ func randBundle(r *Rng, ver bver.Version, n int) *bundle.Bundle {
 		case 4:
 			u := e.Request.URL.String()
 			if strings.HasPrefix(u, "https://") {
-				e.Request.URL = mustURL([]string{u + "#frag", u + "#", "https://u:p@" + u[8:], "https://u@" + u[8:], "https://@" + u[8:], "https://:@" + u[8:], u + "?q=\xff", "https://example.com/\xc3?x"}[r.Intn(8)])
+				e.Request.URL = mustURL([]string{u + "#frag", u + "#", u + "?x=1#top", u + "?#f", "https://u:p@" + u[8:], "https://u@" + u[8:], "https://@" + u[8:], "https://:@" + u[8:], u + "?q=\xff", "https://example.com/\xc3?x"}[r.Intn(10)])
 			}
 		case 5:
-			b.PrimaryURL = mustURL([]string{"https://example.com/p#frag", "https://u:p@example.com/", "/relative", "", "https://example.com/p#", "mailto:x@example.com", "//{", "https://example.com/?\xff"}[r.Intn(8)])
+			b.PrimaryURL = mustURL([]string{"https://example.com/p?x=1#top", "https://example.com/p#frag", "https://u:p@example.com/", "/relative", "", "https://example.com/p#", "mailto:x@example.com", "//{", "https://example.com/?\xff"}[r.Intn(9)])
 		case 6:
 			if ver == bver.VersionB1 {
 				b.ManifestURL = mustURL([]string{"https://example.com/m#frag", "https://u:p@example.com/m", "/relative.json", "", "https://example.com/m",
@@ -254,6 +254,32 @@ func genC03(r *Rng, tier string) []Case {
 				cs = append(cs, Case{"bundle_read", []Sx{B(buf.Bytes()), x509SigTab(nil)}})
 			}
 		}()
+	}
+	// URLs a caller may have assembled field by field: a fragment behind a query (hidden in RawQuery), in the exchange
+	// URL, the primary URL, the manifest URL - the writer must judge the text it is about to write
+	for _, ver := range []bver.Version{bver.VersionB1, bver.VersionB2} {
+		for _, where := range []int{0, 1, 2} {
+			for _, tail := range []string{"?x=1#top", "?#f", "?a=b&c=d#e=f"} {
+				b := randBundle(r, ver, 2)
+				for len(b.Exchanges) < 2 {
+					b = randBundle(r, ver, 2)
+				}
+				switch where {
+				case 0:
+					b.Exchanges[1].Request.URL = mustURL("https://example.com/assembled" + tail)
+				case 1:
+					b.PrimaryURL = mustURL("https://example.com/primary" + tail)
+				default:
+					if ver != bver.VersionB1 {
+						continue
+					}
+					b.ManifestURL = mustURL("https://example.com/manifest.json" + tail)
+				}
+				in := bundleInSx(b)
+				cs = append(cs, Case{"bundle_write", []Sx{in, Sym("buffer")}})
+				cs = append(cs, Case{"bundle_cycle", []Sx{in, x509SigTab(nil)}})
+			}
+		}
 	}
 	// variants machinery directly
 	vstrs := []string{"Accept-Language;en;EN;fr", "A;x;X", "Accept-Language;en;fr, Accept-Encoding;gzip;br", "A;x", "A;x;y;z", "A", "", "A;x, B", "A;1;2", "\"Quoted Name\";\"v 1\";v2", "A;x;x", "A;x,B;y;z,C;p;q;r",
